@@ -67,7 +67,7 @@ import json
 
 
 def correspondence(v, st, prop, cmd, model_kind, tier, seed, replay=None, profiles=("release", "checked"),
-                   extra=(), model_desc="", impl_desc="", kind_for=None, timeout=3000, only=None, case_file="cases.txt"):
+                   extra=(), model_desc="", impl_desc="", kind_for=None, timeout=3000, only=None, case_file="cases.txt", strip_model=None):
     """Generic differential run: harness (per profile) writes cases.txt / impl.txt / specfail.txt / stats.json,
     the extracted model replays cases.txt. Returns dict(stats, samples, evals, distinct, dis, spec_fail[(tag,line,outdir)])."""
     res = dict(stats={}, samples=[], evals=0, distinct=0, dis=0, spec_fail=[])
@@ -97,7 +97,7 @@ def correspondence(v, st, prop, cmd, model_kind, tier, seed, replay=None, profil
             res["samples"] += s["samples"][:3]
             if tag == profiles[0]:
                 res["distinct"] += s["stats"].get("distinct_nontrivial", 0)
-        res["evals"] += sum(val for k, val in s["stats"].items() if k in ("pairs", "hostile_pairs", "cases", "histories", "scenarios"))
+        res["evals"] += sum(val for k, val in s["stats"].items() if k in ("pairs", "hostile_pairs", "cases", "histories", "scenarios", "sessions"))
         sf = os.path.join(outdir, "specfail.txt")
         if os.path.exists(sf):
             res["spec_fail"] += [(tag, l, outdir) for l in open(sf).read().split("\n") if l and (only is None or only in l)]
@@ -107,6 +107,10 @@ def correspondence(v, st, prop, cmd, model_kind, tier, seed, replay=None, profil
             if not ok:
                 st["broken"].append(msg)
                 continue
+            if strip_model:
+                import re as _re
+                mp = os.path.join(outdir, "model.txt")
+                open(mp, "w").write("\n".join(_re.sub(strip_model, "", l) for l in open(mp).read().split("\n")))
             bad = vlib.diff_lines(os.path.join(outdir, "model.txt"), os.path.join(outdir, "impl.txt"))
             if bad:
                 res["dis"] += len(bad)
